@@ -180,6 +180,23 @@ def wide_operator_grammar(rnd, nfill=62, nops=7):
     return dict(terms=terms, nonterms=[dict(name='expr', tag='v0')], precs=precs, rules=rules, start=0, operator=True, big=True)
 
 
+def rr_prec_grammar(rnd):
+    """Reduce/reduce conflicts between rules that carry precedence (two or three nonterminals with the same right-hand side that ends
+    in an operator token), next to shift/reduce conflicts of the same levels: the resolution looks at the order of the candidates."""
+    k = rnd.randint(2, 3)
+    twins = ['N', 'M', 'P'][:k]
+    body = rnd.choice(['- x', '- x', 'x -', '- x -'])
+    alts = ['E + E'] + twins + (['x'] if rnd.random() < 0.5 else [])
+    rnd.shuffle(alts)
+    spec = 'S: E ; E: %s ; %s' % (' | '.join(alts), ' ; '.join('%s: %s' % (t, body if (i == 0 or rnd.random() < 0.8) else 'y x') for i, t in enumerate(twins)))
+    kind = rnd.choice(['left', 'right', 'nonassoc'])
+    if rnd.random() < 0.6:
+        precs = ((kind, ['+', '-']),)
+    else:
+        precs = ((kind, ['+']), (rnd.choice(['left', 'right']), ['-'])) if rnd.random() < 0.5 else ((kind, ['-']), (rnd.choice(['left', 'right']), ['+']))
+    return from_text(spec, precs, start='S')
+
+
 def dup_rule_grammar(rnd):
     """A usable grammar in which one production is written twice (a pasted alternative), with productions after the copy."""
     while True:
